@@ -162,6 +162,43 @@ CHECKS = {
              'zlib-valid => must equal the decompressed image, otherwise => diagnostic, non-zero status, no output.',
         note='zlib via Python decides stream validity (same library as the tool).  Trailing data that does not begin a '
              'gzip member is not judged.'),
+    'C13': dict(
+        category='exploration', design_ref='DESIGN.md section 2, C13',
+        technique='reference-model monitor (slot totals, listings, volume sets, geometry) plus metamorphic monitor over marker-imitating file bodies',
+        text='One catalogue is written with seven body variants (random, 0xAA runs, Watford marker at the start of a file '
+             'in the first data sector, catalogue-like sectors at side-2 offsets, zeros, incomplete Opus tables in sector '
+             '16, noise in free space): slot total, complete info listing and geometry must match the model and cat / '
+             'info / free / show-config must be identical across variants.  Directed families: Watford discs with a file at '
+             '0x102/0x202/0x302, Acorn discs whose 31st entry starts in sector 2 with the marker bytes, Opus discs with 1-8 '
+             'volumes in and out of letter order on 35/40/80 tracks.',
+        note='Forged Opus tables are deliberately incomplete (the statement excludes complete forgeries).  HDFS is not judged.'),
+    'C16': dict(
+        category='exploration', design_ref='DESIGN.md section 2, C16',
+        technique='history monitor: option histories checked after every prefix against hook attach events, --show-config, the allocation rules of the statement and what each drive actually delivers',
+        text='Option histories over {--drive-first, --drive-physical, one-sided ssd, two-sided dsd, one-sided HFE, two-sided '
+             'HxC MFM, MMB}: exhaustive for short histories, random up to length 6.  After every prefix: attach events '
+             'distinct and complete, --show-config equal to them, earlier surfaces unmoved, physical policy never on the '
+             'opposite side of another image and surfaces at n, n+2, ..., --drive-first on the lowest free numbers; then '
+             'drives are read by argument, --drive and :k. prefix and must deliver the unique title / file of the surface '
+             'attached there; empty drives must deliver nothing.',
+        note='Which admissible number the physical policy picks is not judged.'),
+    'C18': dict(
+        category='exploration', design_ref='DESIGN.md section 2, C18',
+        technique='metamorphic monitor over option insertions, option order, --ui and COLUMNS (pty and file), on the ASan+UBSan build',
+        text='Valid images of every container (incl. Opus multi-volume, flux v1/v3/HxC, MMB) and hostile images x commands: '
+             'repeat, --verbose / --show-config / both at random option positions, --verbose first, reordered --drive/'
+             '--dir/--ui must leave stdout and status unchanged; cat under --ui x 13 COLUMNS values on a pty and a file '
+             'must report the same entries, locks, cycle, option and drive; other commands must not change with --ui; a '
+             'sanitizer report appearing only with a diagnostic option is a violation.',
+        note='The layout of cat is not judged.'),
+    'C19': dict(
+        category='exploration', design_ref='DESIGN.md section 2, C19',
+        technique='differential monitoring over four build configurations (NDEBUG, assertions on, asserts evaluated-but-not-fatal, pattern-initialised locals)',
+        text='Inputs from the C01-C03 generators (incl. runs without --dialect) and the hostile corpora of C07/C08 run on '
+             'rel, dbg, asserteval and pattern builds of the same tree; (stdout, status) must agree, except that dbg may '
+             'stop on a failed assertion; a hang in one configuration only is a violation; rel vs asserteval isolates '
+             'side effects inside assert(), rel vs pattern isolates dependence on uninitialised locals.',
+        note='Inputs on which the assertion build aborts are excluded by the statement and only counted.'),
 }
 
 PENDING_REASON = 'check not built yet in this revision of /verif (see DESIGN.md section 7 for the order of work)'
